@@ -1,1 +1,294 @@
-fn main() { let f: syn::File = syn::parse_str("fn a() {}").unwrap(); let v: serde_json::Value = serde_json::from_str("{}").unwrap(); println!("{} {}", f.items.len(), v); }
+//! kurbo2coq <repo-root> <spec.json> <out.v>
+//!
+//! Regenerates Gallina definitions from the Rust source of kurbo for the functions listed in the
+//! spec, and writes next to <out.v> a JSON report (<out.v>.json) with, per function, the
+//! translation status and the statement of the lemma `Gen.f = model f` that `translate_check.py`
+//! hands to Coq.
+
+mod ctx;
+mod lit;
+mod tr;
+
+use ctx::*;
+use serde_json::{json, Value};
+use std::cell::RefCell;
+use std::collections::BTreeSet;
+
+struct Out {
+    def: Option<String>,
+    deps: BTreeSet<usize>,
+    error: Option<String>,
+    binders: Vec<(String, String)>,
+}
+
+fn check_identity_ctor(f: &FnInfo) -> Result<(), String> {
+    // fn new(c: [f64; N]) -> Self { Self(c) }
+    let b = match &f.body {
+        Body::Block(b) => b,
+        _ => return Err("identity_ctor: no body".into()),
+    };
+    if f.params.len() != 1 || !matches!(f.params[0].ty, Ty::Array(..)) || b.stmts.len() != 1 {
+        return Err(format!("identity_ctor {}: not of the shape `fn(c: [f64; N]) -> Self {{ Self(c) }}`", f.label));
+    }
+    if let syn::Stmt::Expr(syn::Expr::Call(c), None) = &b.stmts[0] {
+        let head = norm_tokens(&*c.func);
+        let ok_head = head == "Self" || Some(head.as_str()) == f.impl_ty.as_deref();
+        if ok_head && c.args.len() == 1 && norm_tokens(&c.args[0]) == f.params[0].name {
+            return Ok(());
+        }
+    }
+    Err(format!("identity_ctor {}: body is not `Self({})`", f.label, f.params[0].name))
+}
+
+fn check_identity_coeffs(f: &FnInfo) -> Result<(), String> {
+    // fn as_coeffs(self) -> [f64; N] { self.0 }
+    let b = match &f.body {
+        Body::Block(b) => b,
+        _ => return Err("identity_coeffs: no body".into()),
+    };
+    if f.params.len() == 1 && f.has_self && matches!(f.ret, Ty::Array(..)) && b.stmts.len() == 1 {
+        if let syn::Stmt::Expr(e, None) = &b.stmts[0] {
+            if norm_tokens(e) == "self.0" {
+                return Ok(());
+            }
+        }
+    }
+    Err(format!("identity_coeffs {}: not of the shape `fn(self) -> [f64; N] {{ self.0 }}`", f.label))
+}
+
+fn main() {
+    let args: Vec<String> = std::env::args().collect();
+    if args.len() != 4 && args.len() != 5 {
+        eprintln!("usage: kurbo2coq <repo-root> <spec.json> <out.v> [--exclude=gen1:reason;gen2:reason]");
+        std::process::exit(2);
+    }
+    // definitions Coq rejected in a previous round (translate_check.py): treated as failed, so that
+    // their users are reported too
+    let mut excluded: Vec<(String, String)> = Vec::new();
+    if args.len() == 5 {
+        if let Some(list) = args[4].strip_prefix("--exclude=") {
+            for item in list.split(";;") {
+                if let Some((g, r)) = item.split_once(':') {
+                    excluded.push((g.to_string(), r.to_string()));
+                }
+            }
+        } else {
+            eprintln!("unknown option {}", args[4]);
+            std::process::exit(2);
+        }
+    }
+    let repo = &args[1];
+    let spec_s = match std::fs::read_to_string(&args[2]) {
+        Ok(s) => s,
+        Err(e) => {
+            eprintln!("cannot read spec {}: {}", args[2], e);
+            std::process::exit(2);
+        }
+    };
+    let spec: Value = match serde_json::from_str(&spec_s) {
+        Ok(v) => v,
+        Err(e) => {
+            eprintln!("spec is not valid JSON: {}", e);
+            std::process::exit(2);
+        }
+    };
+    let ctx = match load(repo, &spec) {
+        Ok(c) => c,
+        Err(e) => {
+            eprintln!("kurbo2coq: {}", e);
+            std::process::exit(2);
+        }
+    };
+
+    // phase A: translate every function on its own
+    let mut outs: Vec<Out> = Vec::new();
+    for f in ctx.fns.iter() {
+        if f.is_extern {
+            outs.push(Out { def: None, deps: BTreeSet::new(), error: f.load_error.clone(), binders: vec![] });
+            continue;
+        }
+        if f.identity_coeffs {
+            let e = f.load_error.clone().or_else(|| check_identity_coeffs(f).err());
+            outs.push(Out { def: None, deps: BTreeSet::new(), error: e, binders: vec![] });
+            continue;
+        }
+        if f.identity_ctor {
+            let e = f.load_error.clone().or_else(|| check_identity_ctor(f).err());
+            outs.push(Out { def: None, deps: BTreeSet::new(), error: e, binders: vec![] });
+            continue;
+        }
+        if let Some((_, r)) = excluded.iter().find(|(g, _)| *g == f.gen) {
+            outs.push(Out { def: None, deps: BTreeSet::new(), error: Some(format!("untranslatable: Coq rejected the generated definition: {}", r)), binders: vec![] });
+            continue;
+        }
+        let t = tr::Tr { ctx: &ctx, f, file: f.file.clone(), deps: RefCell::new(BTreeSet::new()), counter: RefCell::new(0) };
+        match t.function() {
+            Ok((binders, ret, body)) => {
+                let bs: String = binders.iter().map(|(n, ty)| format!(" ({} : {})", n, ty)).collect();
+                let def = format!("(* {}  ({}:{}) *)\nDefinition {}{} : {} :=\n  {}.\n", f.label, f.file, f.line, f.gen, bs, ret, body);
+                outs.push(Out { def: Some(def), deps: t.deps.into_inner(), error: None, binders });
+            }
+            Err(e) => outs.push(Out { def: None, deps: BTreeSet::new(), error: Some(e), binders: vec![] }),
+        }
+    }
+    // phase B: propagate failures of model-less helpers to their users; topological order
+    loop {
+        let mut changed = false;
+        for i in 0..outs.len() {
+            if outs[i].error.is_some() {
+                continue;
+            }
+            let bad = outs[i].deps.iter().copied().find(|&d| outs[d].error.is_some());
+            if let Some(d) = bad {
+                outs[i].error = Some(format!("untranslatable: depends on helper {} which failed: {}", ctx.fns[d].label, outs[d].error.clone().unwrap()));
+                outs[i].def = None;
+                changed = true;
+            }
+        }
+        if !changed {
+            break;
+        }
+    }
+    let mut order: Vec<usize> = Vec::new();
+    let mut done: BTreeSet<usize> = BTreeSet::new();
+    fn visit(i: usize, outs: &Vec<Out>, done: &mut BTreeSet<usize>, order: &mut Vec<usize>, stack: &mut Vec<usize>) -> Result<(), String> {
+        if done.contains(&i) {
+            return Ok(());
+        }
+        if stack.contains(&i) {
+            return Err(format!("dependency cycle through function #{}", i));
+        }
+        stack.push(i);
+        for &d in &outs[i].deps {
+            visit(d, outs, done, order, stack)?;
+        }
+        stack.pop();
+        done.insert(i);
+        order.push(i);
+        Ok(())
+    }
+    for i in 0..outs.len() {
+        if outs[i].def.is_some() {
+            let mut stack = Vec::new();
+            if let Err(e) = visit(i, &outs, &mut done, &mut order, &mut stack) {
+                eprintln!("kurbo2coq: {}", e);
+                std::process::exit(2);
+            }
+        }
+    }
+
+    // Gen.v
+    let imports = if ctx.imports.is_empty() { "Scalar".to_string() } else { ctx.imports.join(" ") };
+    let mut v = String::new();
+    v.push_str("(* GENERATED by kurbo2coq from the Rust source -- do not edit. *)\n");
+    v.push_str("From Coq Require Import ZArith QArith List Bool Floats.\n");
+    v.push_str(&format!("From KV Require Import {}.\n", imports));
+    v.push_str("Import ListNotations.\n\nSet Implicit Arguments.\n\nSection Gen.\nContext {T : Type} `{Scalar T}.\nLocal Open Scope S_scope.\n\n");
+    let mut def_lines: Vec<(usize, usize, usize)> = Vec::new(); // fn index, first line, last line
+    for &i in &order {
+        if let Some(d) = &outs[i].def {
+            let start = v.matches('\n').count() + 1;
+            v.push_str(d);
+            let end = v.matches('\n').count();
+            v.push('\n');
+            def_lines.push((i, start, end));
+        }
+    }
+    v.push_str("End Gen.\n");
+    if let Err(e) = std::fs::write(&args[3], &v) {
+        eprintln!("cannot write {}: {}", args[3], e);
+        std::process::exit(2);
+    }
+
+    // the destructing tactic: one clause per record / enum type of the spec
+    let mut ltac = String::from("Ltac tr_destruct := repeat match goal with\n");
+    for tn in &ctx.type_order {
+        let ti = &ctx.types[tn];
+        match &ti.kind {
+            TypeKind::Transparent(_) => {}
+            _ if !ti.destruct => {}
+            _ => {
+                let head = ti.coq.split_whitespace().next().unwrap_or("");
+                ltac.push_str(&format!("  | x : {} _ |- _ => destruct x\n", head));
+            }
+        }
+    }
+    ltac.push_str("  | x : (_ * _)%type |- _ => destruct x\n  | x : option _ |- _ => destruct x\n  end.\n");
+    ltac.push_str("Ltac tr_ifs := repeat match goal with |- context [if ?c then _ else _] => destruct c end.\n");
+    ltac.push_str("Ltac tr_solve := intros; first [ reflexivity | tr_destruct; reflexivity | tr_destruct; cbv; tr_ifs; reflexivity ].\n");
+    let prelude = format!(
+        "From Coq Require Import ZArith QArith List Bool Floats.\nFrom KV Require Import {}.\nFrom KVGen Require Gen.\nImport ListNotations.\n{}",
+        imports, ltac
+    );
+
+    let mut funs: Vec<Value> = Vec::new();
+    for (i, f) in ctx.fns.iter().enumerate() {
+        if f.is_extern {
+            if let Some(e) = &outs[i].error {
+                funs.push(json!({"rust": f.label, "gen": Value::Null, "model": f.model, "props": f.props, "kind": "extern", "status": "untranslatable", "detail": e}));
+            }
+            continue;
+        }
+        let o = &outs[i];
+        let kind = if f.identity_ctor || f.identity_coeffs { "identity_ctor" } else if f.model.is_some() { "tied" } else { "helper" };
+        let names: Vec<String> = o.binders.iter().map(|b| b.0.clone()).collect();
+        let bs: String = o.binders.iter().map(|(n, ty)| format!(" ({} : {})", n, ty)).collect();
+        let lemma_for = |m: &String, app: &Option<String>| -> Value {
+            if o.def.is_none() {
+                return Value::Null;
+            }
+            let rhs = match app {
+                Some(tpl) => {
+                    let mut s = tpl.clone();
+                    for (j, n) in names.iter().enumerate().rev() {
+                        s = s.replace(&format!("${}", j), n);
+                    }
+                    s
+                }
+                None => {
+                    if names.is_empty() {
+                        m.clone()
+                    } else {
+                        format!("{} {}", m, names.join(" "))
+                    }
+                }
+            };
+            let lhs = if names.is_empty() { format!("Gen.{}", f.gen) } else { format!("Gen.{} {}", f.gen, names.join(" ")) };
+            json!(format!("forall (T : Type) (S : Scalar T){}, {} = {}", bs, lhs, rhs))
+        };
+        let lines = def_lines.iter().find(|d| d.0 == i).map(|d| json!([d.1, d.2])).unwrap_or(Value::Null);
+        // one entry per (function, model constant) tie; a helper or identity constructor gets a single entry
+        let mut ties: Vec<(String, Option<String>, Option<String>, Vec<String>)> = Vec::new();
+        ties.push((f.gen.clone(), f.model.clone(), f.model_app.clone(), f.props.clone()));
+        for (k, (m, app, props)) in f.also.iter().enumerate() {
+            ties.push((format!("{}__{}", f.gen, k + 2), Some(m.clone()), app.clone(), props.clone()));
+        }
+        for (id, model, app, props) in ties {
+            let lemma = match &model {
+                Some(m) => lemma_for(m, &app),
+                None => Value::Null,
+            };
+            funs.push(json!({
+                "id": id,
+                "rust": f.label,
+                "file": f.file,
+                "line": f.line,
+                "gen": f.gen,
+                "model": model,
+                "props": props,
+                "kind": kind,
+                "status": if o.error.is_some() { "untranslatable" } else { "translated" },
+                "detail": o.error.clone().unwrap_or_default(),
+                "lemma": lemma,
+                "gen_lines": lines,
+                "deps": o.deps.iter().map(|&d| ctx.fns[d].gen.clone()).collect::<Vec<_>>(),
+            }));
+        }
+    }
+    let report = json!({"prelude": prelude, "functions": funs});
+    let rp = format!("{}.json", args[3]);
+    if let Err(e) = std::fs::write(&rp, serde_json::to_string_pretty(&report).unwrap()) {
+        eprintln!("cannot write {}: {}", rp, e);
+        std::process::exit(2);
+    }
+}
